@@ -193,3 +193,123 @@ def unwrap_delegation(crate, body, max_depth=3):
             return body
         body = crate.bodies[c.callee.target]
     return body
+
+
+# ---------------------------------------------------------------------------- work-list summaries
+DIRTY_METHODS = {"insert", "entry", "push", "extend", "or_insert", "or_insert_with", "append", "extend_from_slice"}
+
+
+def direct_dirty_sites(crate, body):
+    """call sites in `body` (not its closures) that put something into EGraph.pending / modify_queue"""
+    out = []
+    for c in body.calls:
+        if body.blocks[c.bb]["cleanup"] or c.callee is None or not c.args:
+            continue
+        if c.callee.name in DIRTY_METHODS:
+            r = body.role_of_operand(c.args[0])
+            for x in role_walk(r):
+                if isinstance(x, tuple) and x[0] == "field" and x[2] in ("pending", "modify_queue"):
+                    out.append(c)
+                    break
+    return out
+
+
+class Worklist:
+    """P(f): if the work-lists are empty when f is entered they are empty when it returns.
+       S(f): the work-lists are empty whenever f returns.
+    Greatest fixpoint (sound for these partial-correctness summaries, also through recursion);
+    the drain function is S by axiom (its own shape is rule P3).  Calls that do not resolve to a
+    crate-local body (trait methods of user types, boxed closures, std) are assumed P: they can
+    reach the e-graph only through the public API, whose P-ness is what is being established."""
+
+    def __init__(self, crate):
+        self.crate = crate
+        self.drains = set(drain_functions(crate))
+        fns = {b.id: b for b in crate.fns()}
+        self.fns = fns
+        self.P = set(fns)
+        self.S = set(fns)
+        self.why = {}
+        self.direct = {}
+        for fid, b in fns.items():
+            d = []
+            for bb in b.all_bodies():
+                ds = direct_dirty_sites(crate, bb)
+                if bb is b:
+                    d.extend(("op", c.bb, c) for c in ds)
+                elif ds:
+                    # a dirty op inside a closure: charged to the block that creates the closure
+                    top = bb
+                    while top.parent_body is not None and top.parent_body is not b:
+                        top = top.parent_body
+                    if top.creation is not None:
+                        d.append(("closure-op", top.creation[1], ds[0]))
+                    else:
+                        d.append(("closure-op", 0, ds[0]))
+            self.direct[fid] = d
+        changed = True
+        while changed:
+            changed = False
+            for fid in list(self.P):
+                if fid in self.drains:
+                    continue
+                bad = self._p_violations(fns[fid])
+                if bad:
+                    self.P.discard(fid)
+                    self.why[fid] = bad
+                    changed = True
+            for fid in list(self.S):
+                if fid in self.drains:
+                    continue
+                b = fns[fid]
+                sb = self.s_blocks(b)
+                ok = fid in self.P and b.must_pass([0], b.return_blocks(), sb) and bool(sb)
+                if not ok:
+                    self.S.discard(fid)
+                    changed = True
+
+    def s_blocks(self, b):
+        return {c.bb for c in b.calls if c.callee and c.callee.target in self.S and not b.blocks[c.bb]["cleanup"]}
+
+    def dirty_sites(self, b):
+        """[(kind, bb, callsite)] in body b: direct ops, calls to local functions that are not P,
+        closures (created in b) that contain either"""
+        out = list(self.direct[b.id]) if b.id in self.direct else []
+        for c in b.calls:
+            if b.blocks[c.bb]["cleanup"] or c.callee is None:
+                continue
+            t = c.callee.target
+            if t in self.fns and t not in self.P:
+                out.append(("call", c.bb, c))
+        for cb in b.closures:
+            for sub in cb.all_bodies():
+                for c in sub.calls:
+                    if c.callee and c.callee.target in self.fns and c.callee.target not in self.P and not sub.blocks[c.bb]["cleanup"]:
+                        top = cb
+                        out.append(("closure-call", top.creation[1] if top.creation else 0, c))
+        return out
+
+    def _p_violations(self, b):
+        sb = self.s_blocks(b)
+        bad = []
+        for kind, bb, c in self.dirty_sites(b):
+            if bb in sb and kind == "call":
+                continue
+            if not b.must_pass(b.after(bb), b.return_blocks(), sb):
+                bad.append((kind, bb, c))
+        return bad
+
+
+def variant_edges(body, sb, vi, nvariants=2):
+    """edges of the switch at block sb on which the discriminant equals variant index vi
+    (the otherwise edge counts when all other variants have explicit cases)"""
+    t = body.blocks[sb]["term"]
+    vals = [v for v, _ in t["cases"]]
+    out = []
+    if str(vi) in vals:
+        out.append(("e", sb, str(vi)))
+    else:
+        others = {str(i) for i in range(nvariants)} - {str(vi)}
+        if others <= set(vals):
+            out.append(("e", sb, "otherwise"))
+    return out
